@@ -1,12 +1,1240 @@
-//! C15 — not built yet (stub; see DESIGN.md §5).
-use crate::ctx::Tier;
-use serde_json::Value;
+//! C15 — connection lifecycle hooks fire once, in order, on every exit path.
+//!
+//! Exhaustive exit-cause enumeration (E3) against the real
+//! `SharedWebSocketServer`: every exit cause x connection phase x entry point x
+//! {1,2,3,N} concurrent connections is executed on the real code; a small
+//! reference model (the event log grammar below) decides every execution.
+//!
+//! In-memory part (`c15_mem.rs`): every connection is served on its own
+//! current-thread runtime (its own OS thread) over a `memstream` pipe, so an
+//! inline handler parked on a gate blocks exactly its own connection; the
+//! harness is the raw tungstenite peer, the owner of the `ShutdownToken`s and of
+//! the serving tasks' abort handles. Real-TCP part (`c15_tcp.rs`): the built-in
+//! accept loops (`serve_listener`, `serve_listener_with_graceful_drain`) for the
+//! handshake-failure, drain and drain-deadline-abort rows.
+//!
+//! Every wait is for a predicted positive event (a log entry, a frame, a task
+//! completion) under a watchdog; nothing is synchronised by sleeping.
+//!
+//! Oracle (`evaluate`), per accepted connection, from the shared event log:
+//!  * both disconnect hooks ran exactly once, in registration order, after the
+//!    last connect hook, and not before the harness started ending the connection
+//!    (an off-reader panic does not end it: the next request is served with the
+//!    peer still registered); zero times for a failed handshake;
+//!  * `PeerRegistry::get` / `get_by(alias)` find the peer inside every handler
+//!    that runs before the disconnect hooks, and no longer after the serving
+//!    future finished nor inside a handler that outlived the connection;
+//!  * on the wire the two notifies queued by a connect hook precede the first
+//!    response (the first request is pipelined with the upgrade);
+//!  * an off-reader handler still parked when the connection ended reads
+//!    `ctx.is_cancelled() == true` when it polls afterwards.
+//! Samples taken inside connect/disconnect hooks are model-specific: notes only.
 
-pub fn run(_tier: Tier) -> ! {
-    eprintln!("MACHINERY-ERROR property=C15 check not built yet");
-    std::process::exit(2)
+use crate::ctx::{Ctx, Samples, Tier};
+use crate::par;
+use crate::wsh::{Gate, Got};
+use repe::websocket_server::{HandshakeContext, WebSocketServer};
+use repe::{ConnectionError, NotifyBody, PeerId, PeerRegistry, Router};
+use serde_json::{Value, json};
+use std::collections::BTreeMap;
+use std::sync::atomic::{AtomicBool, AtomicU64, Ordering};
+use std::sync::{Arc, Condvar, Mutex};
+use std::time::{Duration, Instant};
+
+#[path = "c15_mem.rs"]
+mod mem;
+#[path = "c15_tcp.rs"]
+mod tcp;
+
+pub(crate) const WATCHDOG: Duration = Duration::from_secs(10);
+/// used only where a *mutant* can make the awaited event impossible and the
+/// harness can make progress without it (the final oracle then decides)
+pub(crate) const SHORT_WATCHDOG: Duration = Duration::from_secs(4);
+pub(crate) const NOCONN: usize = usize::MAX;
+
+// ------------------------------------------------------------------ alphabet
+
+#[derive(Clone, Copy, Debug, PartialEq, Eq, PartialOrd, Ord, Hash)]
+pub(crate) enum Cause {
+    /// client sends a WebSocket Close frame
+    Close,
+    /// client end dropped abruptly (EOF without closing handshake)
+    Drop,
+    /// transport cut: the server's next read/write fails with an I/O error
+    Cut,
+    /// Text frame (protocol violation for REPE)
+    Text,
+    /// binary frame whose 48-byte header carries a wrong magic
+    BadHdr,
+    /// well-formed REPE frame followed by one trailing byte
+    Trailing,
+    /// inline handler panics (unwinds through the serving task)
+    InlinePanic,
+    /// off-reader handler panics: the connection must survive; it is then
+    /// ended by a client Close
+    OffPanic,
+    /// first connect hook panics (before the registry insert)
+    ConnPanic1,
+    /// second plain connect hook panics (after the registry insert and after
+    /// queueing its notifies)
+    ConnPanic2,
+    /// handshake-aware connect hook panics (after setting the alias)
+    ConnPanicH,
+    /// embedder cancellation: `ShutdownToken::cancel`
+    Cancel,
+    /// `JoinHandle::abort` of the serving task without prior cancellation
+    Abort,
+    /// what a graceful drain does: cancel, then abort the serving task once the
+    /// disconnect hooks have been observed (or the task finished)
+    Drain,
 }
 
-pub fn replay(_case: &Value) -> Result<(), String> {
-    Err("no replay for C15 yet".into())
+pub(crate) const CAUSES: [Cause; 14] = [
+    Cause::Close,
+    Cause::Drop,
+    Cause::Cut,
+    Cause::Text,
+    Cause::BadHdr,
+    Cause::Trailing,
+    Cause::InlinePanic,
+    Cause::OffPanic,
+    Cause::ConnPanic1,
+    Cause::ConnPanic2,
+    Cause::ConnPanicH,
+    Cause::Cancel,
+    Cause::Abort,
+    Cause::Drain,
+];
+
+#[derive(Clone, Copy, Debug, PartialEq, Eq, PartialOrd, Ord, Hash)]
+pub(crate) enum Phase {
+    /// connect hooks done, one request answered, nothing in flight
+    Idle,
+    /// an inline handler is parked on a gate (the reader task is inside it)
+    Inline,
+    /// an off-reader handler is parked on a gate; the reader is free
+    Off,
+    /// peer not reading (write credit 0): connect notifies + 3 responses queued
+    Outbound,
+    /// the second connect hook is parked on a gate (connect callbacks running)
+    Connect,
+}
+
+pub(crate) const PHASES: [Phase; 5] = [Phase::Idle, Phase::Inline, Phase::Off, Phase::Outbound, Phase::Connect];
+
+#[derive(Clone, Copy, Debug, PartialEq, Eq, PartialOrd, Ord, Hash)]
+pub(crate) enum Variant {
+    /// `serve_connection`
+    Plain,
+    /// `serve_connection_with_handshake`
+    Handshake,
+    /// `serve_connection_with_cancel`
+    Cancel,
+    /// `serve_connection_with_cancel_and_handshake`
+    CancelHandshake,
+}
+
+pub(crate) const VARIANTS: [Variant; 4] = [Variant::Plain, Variant::Handshake, Variant::Cancel, Variant::CancelHandshake];
+
+impl Variant {
+    pub(crate) fn has_token(self) -> bool {
+        matches!(self, Variant::Cancel | Variant::CancelHandshake)
+    }
+    pub(crate) fn has_handshake(self) -> bool {
+        matches!(self, Variant::Handshake | Variant::CancelHandshake)
+    }
+}
+
+fn name<T: std::fmt::Debug>(t: T) -> String {
+    format!("{t:?}")
+}
+
+fn parse_cause(s: &str) -> Option<Cause> {
+    CAUSES.iter().copied().find(|c| name(c) == s)
+}
+fn parse_phase(s: &str) -> Option<Phase> {
+    PHASES.iter().copied().find(|c| name(c) == s)
+}
+fn parse_variant(s: &str) -> Option<Variant> {
+    VARIANTS.iter().copied().find(|c| name(c) == s)
+}
+
+/// Why a (cause, phase, entry point) cell cannot be executed, if so.
+pub(crate) fn skip_reason(cause: Cause, phase: Phase, has_token: bool, has_handshake: bool) -> Option<&'static str> {
+    match cause {
+        Cause::ConnPanic1 | Cause::ConnPanic2 | Cause::ConnPanicH if phase != Phase::Connect => {
+            Some("a connect-callback panic can only happen during the connect callbacks")
+        }
+        Cause::ConnPanicH if !has_handshake => Some("handshake-aware hooks do not fire on this entry point"),
+        Cause::Cancel | Cause::Drain if !has_token => Some("this entry point takes no ShutdownToken"),
+        _ => None,
+    }
+}
+
+#[derive(Clone, Copy, Debug, PartialEq, Eq, PartialOrd, Ord, Hash)]
+pub(crate) struct Cell {
+    pub cause: Cause,
+    pub phase: Phase,
+}
+
+/// All executable cells for an entry point, in canonical order.
+pub(crate) fn cells(has_token: bool, has_handshake: bool) -> Vec<Cell> {
+    let mut v = Vec::new();
+    for &cause in &CAUSES {
+        for &phase in &PHASES {
+            if skip_reason(cause, phase, has_token, has_handshake).is_none() {
+                v.push(Cell { cause, phase });
+            }
+        }
+    }
+    v
+}
+
+// ----------------------------------------------------------------- event log
+
+#[derive(Clone, Debug, PartialEq)]
+pub(crate) enum Ev {
+    C1 { conn: usize, present: bool },
+    C2 { conn: usize, present: bool, notify_ok: bool },
+    C2Parked { conn: usize },
+    H { conn: usize, attached: bool, by_alias: bool },
+    Probe { conn: usize, n: u64, present: bool, alias: bool, cancelled: bool },
+    ParkedInline { conn: usize },
+    WokeInline { conn: usize, present: bool, alias: bool, cancelled: bool },
+    ParkedOff { conn: usize },
+    WokeOff { conn: usize, present: bool, alias: bool, cancelled: bool },
+    OffPanicking { conn: usize },
+    D1 { conn: usize, present: bool, alias: bool },
+    D2 { conn: usize, present: bool, alias: bool },
+    /// harness marker: from here on the connection is being ended
+    Ending { conn: usize },
+    /// the serving future finished (ok / err / panicked / aborted)
+    Served { conn: usize, outcome: &'static str },
+    /// the connection's runtime (and its blocking pool) is gone
+    Gone { conn: usize },
+    /// harness sample after the serving future finished
+    After { conn: usize, present: bool, alias: bool },
+    /// `on_error` hook
+    Error { kind: &'static str },
+    /// built-in accept loop returned
+    LoopReturned,
+    ShutdownResolved,
+    GateTimeout { conn: usize },
+}
+
+impl Ev {
+    pub(crate) fn conn(&self) -> usize {
+        match self {
+            Ev::C1 { conn, .. }
+            | Ev::C2 { conn, .. }
+            | Ev::C2Parked { conn }
+            | Ev::H { conn, .. }
+            | Ev::Probe { conn, .. }
+            | Ev::ParkedInline { conn }
+            | Ev::WokeInline { conn, .. }
+            | Ev::ParkedOff { conn }
+            | Ev::WokeOff { conn, .. }
+            | Ev::OffPanicking { conn }
+            | Ev::D1 { conn, .. }
+            | Ev::D2 { conn, .. }
+            | Ev::Ending { conn }
+            | Ev::Served { conn, .. }
+            | Ev::Gone { conn }
+            | Ev::After { conn, .. }
+            | Ev::GateTimeout { conn } => *conn,
+            Ev::Error { .. } | Ev::LoopReturned | Ev::ShutdownResolved => NOCONN,
+        }
+    }
+}
+
+pub(crate) struct Plan {
+    pub cause: Cause,
+    pub phase: Phase,
+    pub alias: String,
+    pub hook_gate: Gate,
+    pub inline_gate: Gate,
+    pub off_gate: Gate,
+    /// the parked inline handler panics when it wakes
+    pub wake_panics: AtomicBool,
+}
+
+impl Plan {
+    pub(crate) fn new(idx: usize, cause: Cause, phase: Phase) -> Plan {
+        Plan {
+            cause,
+            phase,
+            alias: format!("alias-{idx}"),
+            hook_gate: Gate::new(),
+            inline_gate: Gate::new(),
+            off_gate: Gate::new(),
+            wake_panics: AtomicBool::new(false),
+        }
+    }
+}
+
+#[derive(Default)]
+struct Bind {
+    starting: Option<usize>,
+    peers: BTreeMap<u64, usize>,
+}
+
+/// Everything the hooks, the handlers and the harness share in one scenario.
+pub(crate) struct World {
+    log: Mutex<Vec<Ev>>,
+    cv: Condvar,
+    pub reg: PeerRegistry,
+    bind: Mutex<Bind>,
+    pub plans: Vec<Plan>,
+}
+
+impl World {
+    pub(crate) fn new(plans: Vec<Plan>) -> Arc<World> {
+        Arc::new(World {
+            log: Mutex::new(Vec::new()),
+            cv: Condvar::new(),
+            reg: PeerRegistry::new(),
+            bind: Mutex::new(Bind::default()),
+            plans,
+        })
+    }
+    pub(crate) fn push(&self, e: Ev) {
+        let mut g = self.log.lock().unwrap_or_else(|p| p.into_inner());
+        g.push(e);
+        self.cv.notify_all();
+    }
+    pub(crate) fn snapshot(&self) -> Vec<Ev> {
+        self.log.lock().unwrap_or_else(|p| p.into_inner()).clone()
+    }
+    /// Wait until `pred(log)` holds; false on watchdog expiry.
+    pub(crate) fn wait(&self, timeout: Duration, pred: impl Fn(&[Ev]) -> bool) -> bool {
+        let deadline = Instant::now() + timeout;
+        let mut g = self.log.lock().unwrap_or_else(|p| p.into_inner());
+        loop {
+            if pred(&g) {
+                return true;
+            }
+            let now = Instant::now();
+            if now >= deadline {
+                return false;
+            }
+            g = self.cv.wait_timeout(g, deadline - now).unwrap_or_else(|p| p.into_inner()).0;
+        }
+    }
+    pub(crate) fn has(&self, pred: impl Fn(&Ev) -> bool) -> bool {
+        self.log.lock().unwrap_or_else(|p| p.into_inner()).iter().any(pred)
+    }
+    pub(crate) fn count(&self, pred: impl Fn(&Ev) -> bool) -> usize {
+        self.log.lock().unwrap_or_else(|p| p.into_inner()).iter().filter(|e| pred(e)).count()
+    }
+    /// The harness announces which connection is being accepted next; the first
+    /// connect hook binds the fresh peer id to it.
+    pub(crate) fn set_starting(&self, idx: Option<usize>) {
+        self.bind.lock().unwrap_or_else(|p| p.into_inner()).starting = idx;
+    }
+    /// The connection a peer id belongs to. An id seen for the first time (by
+    /// whichever hook or handler runs first) is bound to the connection that is
+    /// being accepted right now.
+    pub(crate) fn conn_of(&self, id: PeerId) -> usize {
+        let mut b = self.bind.lock().unwrap_or_else(|p| p.into_inner());
+        if let Some(c) = b.peers.get(&id.0) {
+            return *c;
+        }
+        if id == PeerId::DETACHED {
+            return NOCONN;
+        }
+        match b.starting.take() {
+            Some(i) => {
+                b.peers.insert(id.0, i);
+                i
+            }
+            None => NOCONN,
+        }
+    }
+    pub(crate) fn peer_of(&self, conn: usize) -> Option<PeerId> {
+        let b = self.bind.lock().unwrap_or_else(|p| p.into_inner());
+        b.peers.iter().find(|(_, c)| **c == conn).map(|(p, _)| PeerId(*p))
+    }
+    fn sample(&self, conn: usize, id: PeerId) -> (bool, bool) {
+        let present = self.reg.get(id).is_some_and(|h| h.peer_id() == id);
+        let alias = match self.plans.get(conn) {
+            Some(p) => self.reg.get_by(p.alias.as_str()).is_some_and(|h| h.peer_id() == id),
+            None => false,
+        };
+        (present, alias)
+    }
+    pub(crate) fn sample_after(&self, conn: usize) {
+        let (present, alias) = match self.peer_of(conn) {
+            Some(id) => self.sample(conn, id),
+            None => (false, self.plans.get(conn).is_some_and(|p| self.reg.get_by(p.alias.as_str()).is_some())),
+        };
+        self.push(Ev::After { conn, present, alias });
+    }
+}
+
+/// The server under test with the full hook set. Registration order:
+/// C1, D1, registry(insert/remove), C2, H, D2.
+pub(crate) fn build_server(w: &Arc<World>) -> WebSocketServer {
+    let router = Router::new()
+        .with_json_ctx("/probe", {
+            let w = w.clone();
+            move |ctx, v| {
+                let id = ctx.peer().map(|p| p.peer_id()).unwrap_or(PeerId::DETACHED);
+                let conn = w.conn_of(id);
+                let (present, alias) = w.sample(conn, id);
+                w.push(Ev::Probe { conn, n: v.get("n").and_then(|n| n.as_u64()).unwrap_or(0), present, alias, cancelled: ctx.is_cancelled() });
+                Ok(json!({"probe": true}))
+            }
+        })
+        .with_json_ctx("/park_inline", {
+            let w = w.clone();
+            move |ctx, _v| {
+                let id = ctx.peer().map(|p| p.peer_id()).unwrap_or(PeerId::DETACHED);
+                let conn = w.conn_of(id);
+                w.push(Ev::ParkedInline { conn });
+                let mut panics = false;
+                if let Some(p) = w.plans.get(conn) {
+                    if !park(&p.inline_gate) {
+                        w.push(Ev::GateTimeout { conn });
+                    }
+                    panics = p.wake_panics.load(Ordering::SeqCst);
+                }
+                let (present, alias) = w.sample(conn, id);
+                w.push(Ev::WokeInline { conn, present, alias, cancelled: ctx.is_cancelled() });
+                if panics {
+                    panic!("C15: parked inline handler panics on wake-up");
+                }
+                Ok(json!({"parked": "inline"}))
+            }
+        })
+        .with_json_ctx_blocking("/park_off", {
+            let w = w.clone();
+            move |ctx, _v| {
+                let id = ctx.peer().map(|p| p.peer_id()).unwrap_or(PeerId::DETACHED);
+                let conn = w.conn_of(id);
+                w.push(Ev::ParkedOff { conn });
+                if let Some(p) = w.plans.get(conn) {
+                    if !p.off_gate.wait() {
+                        w.push(Ev::GateTimeout { conn });
+                    }
+                }
+                let cancelled = ctx.is_cancelled();
+                let (present, alias) = w.sample(conn, id);
+                w.push(Ev::WokeOff { conn, present, alias, cancelled });
+                Ok(json!({"parked": "off"}))
+            }
+        })
+        .with_json_ctx("/panic_inline", |_ctx, _v| -> Result<Value, (repe::ErrorCode, String)> { panic!("C15: inline handler panic") })
+        .with_json_ctx_blocking("/panic_off", {
+            let w = w.clone();
+            move |ctx, _v| -> Result<Value, (repe::ErrorCode, String)> {
+                let id = ctx.peer().map(|p| p.peer_id()).unwrap_or(PeerId::DETACHED);
+                w.push(Ev::OffPanicking { conn: w.conn_of(id) });
+                panic!("C15: off-reader handler panic")
+            }
+        })
+        .with_json_ctx("/big", {
+            let w = w.clone();
+            move |ctx, v| {
+                let id = ctx.peer().map(|p| p.peer_id()).unwrap_or(PeerId::DETACHED);
+                let conn = w.conn_of(id);
+                let (present, alias) = w.sample(conn, id);
+                w.push(Ev::Probe { conn, n: v.get("n").and_then(|n| n.as_u64()).unwrap_or(0), present, alias, cancelled: ctx.is_cancelled() });
+                let n = v.get("bytes").and_then(|n| n.as_u64()).unwrap_or(0) as usize;
+                Ok(Value::String("x".repeat(n)))
+            }
+        });
+    WebSocketServer::new(router)
+        .on_error({
+            let w = w.clone();
+            move |e: &ConnectionError| {
+                let kind = match e {
+                    ConnectionError::Handshake(_) => "handshake",
+                    ConnectionError::Connection(_) => "connection",
+                    ConnectionError::HandlerPanic { .. } => "handler-panic",
+                    ConnectionError::Saturation { .. } => "saturation",
+                    ConnectionError::OutboundTooLarge { .. } => "outbound-too-large",
+                    _ => "other",
+                };
+                w.push(Ev::Error { kind });
+            }
+        })
+        .on_peer_connect({
+            let w = w.clone();
+            move |peer| {
+                let id = peer.peer_id();
+                let conn = w.conn_of(id);
+                let (present, _) = w.sample(conn, id);
+                w.push(Ev::C1 { conn, present });
+                if w.plans.get(conn).is_some_and(|p| p.cause == Cause::ConnPanic1) {
+                    panic!("C15: first connect hook panics");
+                }
+            }
+        })
+        .on_peer_disconnect({
+            let w = w.clone();
+            move |id| {
+                let conn = w.conn_of(id);
+                let (present, alias) = w.sample(conn, id);
+                w.push(Ev::D1 { conn, present, alias });
+            }
+        })
+        .with_peer_registry(w.reg.clone())
+        .on_peer_connect({
+            let w = w.clone();
+            move |peer| {
+                let id = peer.peer_id();
+                let conn = w.conn_of(id);
+                let (present, _) = w.sample(conn, id);
+                let a = peer.send_notify("/hello/1", NotifyBody::Json(b"1".to_vec())).is_ok();
+                let b = peer.send_notify("/hello/2", NotifyBody::Json(b"2".to_vec())).is_ok();
+                w.push(Ev::C2 { conn, present, notify_ok: a && b });
+                if let Some(p) = w.plans.get(conn) {
+                    if p.phase == Phase::Connect && p.cause != Cause::ConnPanic1 {
+                        w.push(Ev::C2Parked { conn });
+                        if !park(&p.hook_gate) {
+                            w.push(Ev::GateTimeout { conn });
+                        }
+                    }
+                    if p.cause == Cause::ConnPanic2 {
+                        panic!("C15: second connect hook panics");
+                    }
+                }
+            }
+        })
+        .on_peer_connect_with_handshake({
+            let w = w.clone();
+            move |peer, hs: &HandshakeContext| {
+                let id = peer.peer_id();
+                let conn = w.conn_of(id);
+                let attached = match hs.header("x-alias") {
+                    Some(a) => w.reg.alias(id, a),
+                    None => false,
+                };
+                let (_, by_alias) = w.sample(conn, id);
+                w.push(Ev::H { conn, attached, by_alias });
+                if w.plans.get(conn).is_some_and(|p| p.cause == Cause::ConnPanicH) {
+                    panic!("C15: handshake-aware connect hook panics");
+                }
+            }
+        })
+        .on_peer_disconnect({
+            let w = w.clone();
+            move |id| {
+                let conn = w.conn_of(id);
+                let (present, alias) = w.sample(conn, id);
+                w.push(Ev::D2 { conn, present, alias });
+            }
+        })
+}
+
+/// Park on a gate. On a multi-thread runtime the worker hands its duties (I/O
+/// driver included) to another thread first, so that one parked callback does
+/// not stall unrelated connections of the same runtime.
+fn park(g: &Gate) -> bool {
+    match tokio::runtime::Handle::try_current() {
+        Ok(h) if h.runtime_flavor() == tokio::runtime::RuntimeFlavor::MultiThread => tokio::task::block_in_place(|| g.wait()),
+        _ => g.wait(),
+    }
+}
+
+// -------------------------------------------------------------------- oracle
+
+#[derive(Clone, Debug)]
+pub(crate) struct Bad {
+    pub key: String,
+    pub what: String,
+}
+
+/// What the harness knows about one connection when the scenario is over.
+#[derive(Clone, Debug)]
+pub(crate) struct ConnFacts {
+    pub cause: Cause,
+    pub phase: Phase,
+    /// the WebSocket handshake succeeded (always true in memory)
+    pub accepted: bool,
+    /// handshake-aware hooks are expected to fire and set the alias
+    pub has_handshake: bool,
+    /// messages seen by the raw client, in wire order
+    pub wire: Vec<Got>,
+    /// label for reports ("mem:Plain", "tcp:drain", ...)
+    pub via: String,
+}
+
+#[derive(Default, Clone, Debug)]
+pub(crate) struct Counters {
+    pub scenarios: u64,
+    pub connections: u64,
+    pub cells: BTreeMap<String, u64>,
+    pub via: BTreeMap<String, u64>,
+    pub served: BTreeMap<String, u64>,
+    pub skipped_cells: BTreeMap<String, u64>,
+    pub off_parked_at_exit: u64,
+    pub off_woke_cancelled: u64,
+    pub inline_parked_at_trigger: u64,
+    pub inline_saw_cancel: u64,
+    pub queue_nonempty_at_exit: u64,
+    pub hook_parked_at_trigger: u64,
+    pub wire_order_checked: u64,
+    pub notifies_on_wire: u64,
+    pub registry_samples_connected: u64,
+    pub registry_samples_after: u64,
+    pub disconnect_pairs_checked: u64,
+    pub handshake_failures: u64,
+    pub offpanic_survived: u64,
+    pub drain_returned_with_parked_handler: u64,
+    pub drain_aborted_stragglers: u64,
+    pub undelivered_at_abort: u64,
+    pub log_shapes: BTreeMap<String, u64>,
+    pub notes: BTreeMap<String, u64>,
+    pub events: u64,
+    /// the same three counters for the loopback-TCP rows (kernel timing and the
+    /// multi-thread scheduler make them vary by a few between runs)
+    pub tcp_events: u64,
+    pub tcp_wire_order_checked: u64,
+    pub tcp_notifies_on_wire: u64,
+}
+
+fn bump(m: &mut BTreeMap<String, u64>, k: impl Into<String>) {
+    *m.entry(k.into()).or_insert(0) += 1;
+}
+
+impl Counters {
+    pub(crate) fn merge(&mut self, o: &Counters) {
+        fn mm(a: &mut BTreeMap<String, u64>, b: &BTreeMap<String, u64>) {
+            for (k, v) in b {
+                *a.entry(k.clone()).or_insert(0) += v;
+            }
+        }
+        self.scenarios += o.scenarios;
+        self.connections += o.connections;
+        mm(&mut self.cells, &o.cells);
+        mm(&mut self.via, &o.via);
+        mm(&mut self.served, &o.served);
+        mm(&mut self.skipped_cells, &o.skipped_cells);
+        mm(&mut self.log_shapes, &o.log_shapes);
+        mm(&mut self.notes, &o.notes);
+        self.off_parked_at_exit += o.off_parked_at_exit;
+        self.off_woke_cancelled += o.off_woke_cancelled;
+        self.inline_parked_at_trigger += o.inline_parked_at_trigger;
+        self.inline_saw_cancel += o.inline_saw_cancel;
+        self.queue_nonempty_at_exit += o.queue_nonempty_at_exit;
+        self.hook_parked_at_trigger += o.hook_parked_at_trigger;
+        self.wire_order_checked += o.wire_order_checked;
+        self.notifies_on_wire += o.notifies_on_wire;
+        self.registry_samples_connected += o.registry_samples_connected;
+        self.registry_samples_after += o.registry_samples_after;
+        self.disconnect_pairs_checked += o.disconnect_pairs_checked;
+        self.handshake_failures += o.handshake_failures;
+        self.offpanic_survived += o.offpanic_survived;
+        self.drain_returned_with_parked_handler += o.drain_returned_with_parked_handler;
+        self.drain_aborted_stragglers += o.drain_aborted_stragglers;
+        self.undelivered_at_abort += o.undelivered_at_abort;
+        self.events += o.events;
+        self.tcp_events += o.tcp_events;
+        self.tcp_wire_order_checked += o.tcp_wire_order_checked;
+        self.tcp_notifies_on_wire += o.tcp_notifies_on_wire;
+    }
+}
+
+/// Result of one scenario.
+#[derive(Default, Clone, Debug)]
+pub(crate) struct Outcome {
+    pub bad: Vec<Bad>,
+    /// watchdog expiries / harness trouble that is not a property clause
+    pub stuck: Vec<String>,
+    pub counters: Counters,
+    /// per-connection event shapes (for samples and the determinism re-run)
+    pub shapes: Vec<String>,
+}
+
+fn short(e: &Ev) -> &'static str {
+    match e {
+        Ev::C1 { .. } => "c1",
+        Ev::C2 { .. } => "c2",
+        Ev::C2Parked { .. } => "c2park",
+        Ev::H { .. } => "h",
+        Ev::Probe { .. } => "probe",
+        Ev::ParkedInline { .. } => "in-park",
+        Ev::WokeInline { .. } => "in-woke",
+        Ev::ParkedOff { .. } => "off-park",
+        Ev::WokeOff { .. } => "off-woke",
+        Ev::OffPanicking { .. } => "off-panic",
+        Ev::D1 { .. } => "D1",
+        Ev::D2 { .. } => "D2",
+        Ev::Ending { .. } => "|end|",
+        Ev::Served { outcome, .. } => outcome,
+        Ev::Gone { .. } => "gone",
+        Ev::After { .. } => "after",
+        Ev::Error { .. } => "err",
+        Ev::LoopReturned => "loop-ret",
+        Ev::ShutdownResolved => "shutdown",
+        Ev::GateTimeout { .. } => "GATE-TIMEOUT",
+    }
+}
+
+/// The reference model: decide one scenario from its event log and the wire
+/// views. `shared_end` = the connections share one ShutdownToken / one accept
+/// loop, so the first `Ending` marker may legitimately end all of them.
+pub(crate) fn evaluate(w: &World, facts: &[ConnFacts], shared_end: bool, out: &mut Outcome) {
+    let log = w.snapshot();
+    let in_memory = facts.iter().all(|f| f.via.starts_with("mem"));
+    if in_memory {
+        out.counters.events += log.len() as u64;
+    } else {
+        out.counters.tcp_events += log.len() as u64;
+    }
+    let first_shared_end = log.iter().position(|e| matches!(e, Ev::Ending { .. }));
+    for (conn, f) in facts.iter().enumerate() {
+        let evs: Vec<(usize, &Ev)> = log.iter().enumerate().filter(|(_, e)| e.conn() == conn).collect();
+        let shape: Vec<&str> = evs.iter().map(|(_, e)| short(e)).collect();
+        let shape = shape.join(" ");
+        let tag = format!("cause={:?} phase={:?} via={} conn={}", f.cause, f.phase, f.via, conn);
+        let cause = name(f.cause);
+        let mut fail = |key: String, what: String| {
+            out.bad.push(Bad { key, what: format!("{what} [{tag}] log: {shape}") });
+        };
+        let pos = |p: &dyn Fn(&Ev) -> bool| evs.iter().filter(|(_, e)| p(e)).map(|(i, _)| *i).collect::<Vec<_>>();
+        let d1 = pos(&|e| matches!(e, Ev::D1 { .. }));
+        let d2 = pos(&|e| matches!(e, Ev::D2 { .. }));
+        let connects = pos(&|e| matches!(e, Ev::C1 { .. } | Ev::C2 { .. } | Ev::H { .. }));
+        if evs.iter().any(|(_, e)| matches!(e, Ev::GateTimeout { .. })) {
+            out.stuck.push(format!("a gate timed out [{tag}]"));
+        }
+
+        if !f.accepted {
+            // "never for a connection whose handshake failed"
+            out.counters.handshake_failures += 1;
+            if !d1.is_empty() || !d2.is_empty() {
+                fail("C15:disconnect-hook-ran-for-failed-handshake".into(), format!("disconnect hooks ran {}+{} times for a connection whose handshake failed", d1.len(), d2.len()));
+            }
+            if !connects.is_empty() {
+                out.counters.notes.entry("connect hook ran for a failed handshake".into()).and_modify(|n| *n += 1).or_insert(1);
+            }
+            out.shapes.push(format!("{:?}/{:?}: {}", f.cause, f.phase, shape));
+            continue;
+        }
+
+        // ---- "the disconnect callbacks run exactly once" (each of the two)
+        out.counters.disconnect_pairs_checked += 1;
+        if d1.len() != 1 || d2.len() != 1 {
+            fail(
+                format!("C15:disconnect-hooks-ran-{}+{}-times:{cause}", d1.len(), d2.len()),
+                format!("disconnect hooks ran {} (first) and {} (second) times instead of exactly once each", d1.len(), d2.len()),
+            );
+        }
+        // ---- registration order
+        if let (Some(a), Some(b)) = (d1.first(), d2.first()) {
+            if a > b {
+                fail("C15:disconnect-hooks-out-of-registration-order".into(), "second-registered disconnect hook ran before the first-registered one".into());
+            }
+        }
+        // ---- after the connect hooks
+        if let (Some(first_d), Some(last_c)) = (d1.iter().chain(d2.iter()).min(), connects.iter().max()) {
+            if first_d < last_c {
+                fail("C15:disconnect-hook-before-connect-hook".into(), "a disconnect hook ran before the last connect hook of the same connection".into());
+            }
+        }
+        // ---- not before the connection is being ended
+        let own_end = evs.iter().find(|(_, e)| matches!(e, Ev::Ending { .. })).map(|(i, _)| *i);
+        let end_at = if shared_end { first_shared_end.or(own_end) } else { own_end };
+        if let (Some(first_d), Some(end_at)) = (d1.iter().chain(d2.iter()).min(), end_at) {
+            if *first_d < end_at {
+                fail(format!("C15:disconnect-hook-on-live-connection:{cause}"), "a disconnect hook ran while the connection was alive (before its exit cause)".into());
+            }
+        }
+
+        // ---- registry: present (with alias) while connected
+        let first_d = d1.iter().chain(d2.iter()).min().copied().unwrap_or(usize::MAX);
+        let insert_ran = evs.iter().any(|(_, e)| matches!(e, Ev::C2 { .. })) || f.cause != Cause::ConnPanic1;
+        let alias_set = evs.iter().any(|(_, e)| matches!(e, Ev::H { attached: true, .. }));
+        for (i, e) in &evs {
+            match e {
+                Ev::Probe { present, alias, .. } | Ev::WokeInline { present, alias, .. } if *i < first_d => {
+                    out.counters.registry_samples_connected += 1;
+                    if !*present {
+                        fail("C15:peer-absent-from-registry-while-connected".into(), format!("PeerRegistry::get returned None inside a handler of a live connection ({})", short(e)));
+                    }
+                    if f.has_handshake && !*alias {
+                        fail("C15:alias-absent-from-registry-while-connected".into(), format!("PeerRegistry::get_by(alias) returned None inside a handler of a live connection ({})", short(e)));
+                    }
+                }
+                Ev::C2 { present, notify_ok, .. } => {
+                    if !*present {
+                        bump(&mut out.counters.notes, "second connect hook did not see the peer in the registry");
+                    }
+                    if !*notify_ok {
+                        out.stuck.push(format!("send_notify from the connect hook failed [{tag}]"));
+                    }
+                }
+                Ev::H { attached, by_alias, .. } => {
+                    if !*attached || !*by_alias {
+                        bump(&mut out.counters.notes, "alias not attachable from the handshake hook");
+                    }
+                }
+                Ev::D1 { present, alias, .. } => {
+                    // sampled in the first disconnect hook, before the registry's own
+                    // remove hook: model-specific, so a divergence is a note
+                    if *present != insert_ran || *alias != alias_set {
+                        bump(&mut out.counters.notes, "first disconnect hook: registry content differs from the model");
+                    }
+                }
+                Ev::D2 { present, alias, .. } => {
+                    if *present || *alias {
+                        bump(&mut out.counters.notes, "last disconnect hook still sees the peer in the registry");
+                    }
+                }
+                _ => {}
+            }
+        }
+        // ---- registry: absent afterwards
+        for (i, e) in &evs {
+            match e {
+                Ev::After { present, alias, .. } => {
+                    out.counters.registry_samples_after += 1;
+                    if *present {
+                        fail(format!("C15:peer-left-in-registry:{cause}"), "PeerRegistry::get still returns the peer after the serving future finished".into());
+                    }
+                    if *alias {
+                        fail(format!("C15:alias-left-in-registry:{cause}"), "PeerRegistry::get_by(alias) still returns the peer after the serving future finished".into());
+                    }
+                }
+                Ev::WokeOff { present, alias, cancelled, .. } => {
+                    let served_at = evs.iter().find(|(_, e)| matches!(e, Ev::Served { .. } | Ev::After { .. })).map(|(j, _)| *j);
+                    if served_at.is_some_and(|s| s < *i) {
+                        out.counters.off_parked_at_exit += 1;
+                        out.counters.registry_samples_after += 1;
+                        // ---- "handlers still running when the connection ends observe cancellation"
+                        if *cancelled {
+                            out.counters.off_woke_cancelled += 1;
+                        } else {
+                            fail(format!("C15:parked-handler-not-cancelled:{cause}"), "an off-reader handler still parked when the connection ended read ctx.is_cancelled() == false afterwards".into());
+                        }
+                        if *present || *alias {
+                            fail(format!("C15:peer-left-in-registry:{cause}"), "a handler that outlived the connection still finds the peer (or its alias) in the registry".into());
+                        }
+                    }
+                }
+                Ev::WokeInline { cancelled, .. } => {
+                    // (over TCP the harness cannot order the wake-up after the accept
+                    // loop's internal cancel, so only the in-memory rows are looked at)
+                    if matches!(f.cause, Cause::Cancel | Cause::Drain) && f.via.starts_with("mem") {
+                        if *cancelled {
+                            out.counters.inline_saw_cancel += 1;
+                        } else {
+                            bump(&mut out.counters.notes, "inline handler did not see the embedder cancellation");
+                        }
+                    }
+                }
+                _ => {}
+            }
+        }
+
+        // ---- off-reader panic: the connection survives (peer stays registered,
+        //      later requests are served, no disconnect hook yet)
+        if f.cause == Cause::OffPanic {
+            let panicked = evs.iter().find(|(_, e)| matches!(e, Ev::OffPanicking { .. })).map(|(i, _)| *i);
+            let survived = evs.iter().any(|(i, e)| matches!(e, Ev::Probe { n: 71, present: true, .. }) && panicked.is_some_and(|p| p < *i) && *i < first_d);
+            if survived {
+                out.counters.offpanic_survived += 1;
+            } else {
+                fail("C15:offreader-panic-ended-connection".into(), "after an off-reader handler panic the connection did not serve the next request with the peer still registered".into());
+            }
+        }
+
+        // ---- wire order: connect notifies before any response
+        let mut hello = 0;
+        let mut decided = false;
+        for g in &f.wire {
+            if let Got::Frame(fr) = g {
+                if fr.h.notify != 0 && fr.query.starts_with(b"/hello/") {
+                    hello += 1;
+                } else if fr.h.notify == 0 {
+                    decided = true;
+                    if hello < 2 {
+                        fail(
+                            "C15:response-overtook-connect-notify".into(),
+                            format!("a response (id {}) reached the wire after only {hello} of the 2 notifies queued by the connect hook", fr.h.id),
+                        );
+                    }
+                    break;
+                }
+            }
+        }
+        if decided {
+            if in_memory {
+                out.counters.wire_order_checked += 1;
+            } else {
+                out.counters.tcp_wire_order_checked += 1;
+            }
+        }
+        if hello >= 2 {
+            if in_memory {
+                out.counters.notifies_on_wire += 1;
+            } else {
+                out.counters.tcp_notifies_on_wire += 1;
+            }
+        }
+        for (_, e) in &evs {
+            if let Ev::Served { outcome, .. } = e {
+                bump(&mut out.counters.served, format!("{:?}:{outcome}", f.cause));
+            }
+        }
+        bump(&mut out.counters.log_shapes, shape.clone());
+        out.shapes.push(format!("{:?}/{:?}: {}", f.cause, f.phase, shape));
+    }
+    // hooks that could not be attributed to any connection of the scenario
+    if facts.iter().any(|f| !f.accepted) && log.iter().any(|e| e.conn() == NOCONN && matches!(e, Ev::D1 { .. } | Ev::D2 { .. })) {
+        out.bad.push(Bad {
+            key: "C15:disconnect-hook-ran-for-failed-handshake".into(),
+            what: "a disconnect hook ran for a peer id that no accepted connection owns, in a scenario with a failed handshake".into(),
+        });
+    } else if log.iter().any(|e| e.conn() == NOCONN && !matches!(e, Ev::Error { .. } | Ev::LoopReturned | Ev::ShutdownResolved)) {
+        out.bad.push(Bad {
+            key: "C15:hook-for-unknown-connection".into(),
+            what: format!("a lifecycle hook or handler ran for a peer id no accepted connection owns: {:?}", log.iter().filter(|e| e.conn() == NOCONN).take(4).collect::<Vec<_>>()),
+        });
+    }
+    // scenario end: nothing may be left in the registry
+    if w.reg.len() != 0 && !out.bad.iter().any(|b| b.key.starts_with("C15:peer-left-in-registry")) {
+        out.bad.push(Bad { key: "C15:peer-left-in-registry:end".into(), what: format!("{} peers left in the registry when every connection of the scenario had ended", w.reg.len()) });
+    }
+}
+
+// ------------------------------------------------------------------ scenarios
+
+#[derive(Clone, Debug)]
+pub(crate) enum Scenario {
+    Mem(mem::MemScenario),
+    Tcp(tcp::TcpScenario),
+}
+
+impl Scenario {
+    fn to_json(&self) -> Value {
+        match self {
+            Scenario::Mem(m) => m.to_json(),
+            Scenario::Tcp(t) => t.to_json(),
+        }
+    }
+    fn from_json(v: &Value) -> Result<Scenario, String> {
+        match v["kind"].as_str() {
+            Some("mem") => Ok(Scenario::Mem(mem::MemScenario::from_json(v)?)),
+            Some("tcp") => Ok(Scenario::Tcp(tcp::TcpScenario::from_json(v)?)),
+            _ => Err("unknown scenario kind".into()),
+        }
+    }
+    fn run(&self) -> Outcome {
+        match self {
+            Scenario::Mem(m) => mem::run(m),
+            Scenario::Tcp(t) => tcp::run(t),
+        }
+    }
+}
+
+pub(crate) fn cell_json(c: &Cell) -> Value {
+    json!({"cause": name(c.cause), "phase": name(c.phase)})
+}
+pub(crate) fn cell_from_json(v: &Value) -> Result<Cell, String> {
+    Ok(Cell {
+        cause: v["cause"].as_str().and_then(parse_cause).ok_or("cause")?,
+        phase: v["phase"].as_str().and_then(parse_phase).ok_or("phase")?,
+    })
+}
+pub(crate) fn variant_from_json(v: &Value) -> Result<Variant, String> {
+    v.as_str().and_then(parse_variant).ok_or_else(|| "variant".to_string())
+}
+
+fn mem_sc(variant: Variant, conns: Vec<Cell>, shared_token: bool, reverse_end: bool) -> Scenario {
+    Scenario::Mem(mem::MemScenario { variant, conns, shared_token, reverse_end })
+}
+
+fn enumerate(tier: Tier, skipped: &mut BTreeMap<String, u64>) -> Vec<Scenario> {
+    let mut v = Vec::new();
+    // (1) one connection: every cell on every entry point
+    for &variant in &VARIANTS {
+        for &cause in &CAUSES {
+            for &phase in &PHASES {
+                match skip_reason(cause, phase, variant.has_token(), variant.has_handshake()) {
+                    Some(r) => bump(skipped, format!("{cause:?}x{phase:?}@{variant:?}: {r}")),
+                    None => v.push(mem_sc(variant, vec![Cell { cause, phase }], false, false)),
+                }
+            }
+        }
+    }
+    // (2) two connections: every ordered pair of cells (the first-listed is
+    //     accepted first); ended in acceptance order and in reverse order
+    let full = cells(true, true);
+    for (i, a) in full.iter().enumerate() {
+        for (j, b) in full.iter().enumerate() {
+            let variant = if (i + j) % 2 == 0 { Variant::CancelHandshake } else { Variant::Cancel };
+            let ok = |c: &Cell| skip_reason(c.cause, c.phase, variant.has_token(), variant.has_handshake()).is_none();
+            let variant = if ok(a) && ok(b) { variant } else { Variant::CancelHandshake };
+            for rev in [false, true] {
+                if tier == Tier::Quick && rev && a.cause != b.cause && (i + j) % 3 != 0 {
+                    continue; // quick: reverse ending order for a third of the mixed pairs
+                }
+                v.push(mem_sc(variant, vec![*a, *b], false, rev));
+            }
+        }
+    }
+    // (3) three connections. quick: every triple of causes, phases assigned by a
+    //     fixed covering rule; thorough: every triple of cells
+    match tier {
+        Tier::Quick => {
+            let exec: Vec<Cause> = CAUSES.to_vec();
+            for (i, &a) in exec.iter().enumerate() {
+                for (j, &b) in exec.iter().enumerate() {
+                    for (k, &c) in exec.iter().enumerate() {
+                        let ph = |cause: Cause, salt: usize| -> Phase {
+                            if matches!(cause, Cause::ConnPanic1 | Cause::ConnPanic2 | Cause::ConnPanicH) {
+                                Phase::Connect
+                            } else {
+                                PHASES[(i + 2 * j + 3 * k + salt) % PHASES.len()]
+                            }
+                        };
+                        v.push(mem_sc(
+                            Variant::CancelHandshake,
+                            vec![Cell { cause: a, phase: ph(a, 0) }, Cell { cause: b, phase: ph(b, 1) }, Cell { cause: c, phase: ph(c, 2) }],
+                            false,
+                            (i + j + k) % 2 == 1,
+                        ));
+                    }
+                }
+            }
+        }
+        Tier::Thorough => {
+            for (i, a) in full.iter().enumerate() {
+                for (j, b) in full.iter().enumerate() {
+                    for (k, c) in full.iter().enumerate() {
+                        v.push(mem_sc(Variant::CancelHandshake, vec![*a, *b, *c], false, (i + j + k) % 2 == 1));
+                    }
+                }
+            }
+        }
+    }
+    // (4) N connections with the same cell, one shared ShutdownToken
+    let ns: &[usize] = tier.pick(&[4], &[8, 32]);
+    for &n in ns {
+        for c in &full {
+            v.push(mem_sc(Variant::CancelHandshake, vec![*c; n], true, false));
+        }
+    }
+    // (5) the built-in accept loops over loopback TCP
+    for t in tcp::enumerate(tier, skipped) {
+        v.push(Scenario::Tcp(t));
+    }
+    v
+}
+
+struct WorkerState {
+    samples: Vec<(u64, Value)>,
+    counters: Counters,
+    stuck: Vec<(u64, String)>,
+    nondeterministic: Vec<String>,
+}
+
+pub fn run(tier: Tier) -> ! {
+    let ctx = Ctx::new("C15", tier);
+    let mut skipped = BTreeMap::new();
+    let scenarios = enumerate(tier, &mut skipped);
+    let samples = Samples::new(8);
+    let total = scenarios.len() as u64;
+    // fixed sample positions: first and last scenario of the sweep and six evenly spaced ones
+    let sample_at: Vec<u64> = (0..8u64).map(|k| (k * total.saturating_sub(1)) / 7).collect();
+    let stop = AtomicBool::new(false);
+    let executed = AtomicU64::new(0);
+    let prev_hook = std::panic::take_hook();
+    std::panic::set_hook(Box::new(|_| {}));
+    let t0 = Instant::now();
+    let states = par::for_each_index(
+        scenarios.len() as u64,
+        1,
+        |_| WorkerState { samples: Vec::new(), counters: Counters::default(), stuck: Vec::new(), nondeterministic: Vec::new() },
+        |st, i| {
+            if stop.load(Ordering::Relaxed) {
+                return;
+            }
+            let sc = &scenarios[i as usize];
+            let t_sc = Instant::now();
+            let o = sc.run();
+            if t_sc.elapsed() > Duration::from_millis(800) && std::env::var_os("C15_DEBUG").is_some() {
+                eprintln!("[C15] slow scenario {i} ({:.1}s): {}", t_sc.elapsed().as_secs_f64(), sc.to_json());
+            }
+            executed.fetch_add(1, Ordering::Relaxed);
+            st.counters.merge(&o.counters);
+            for s in &o.stuck {
+                st.stuck.push((i, s.clone()));
+            }
+            if !o.bad.is_empty() {
+                // re-execute twice from the recorded scenario before reporting
+                let keys = |o: &Outcome| {
+                    let mut k: Vec<String> = o.bad.iter().map(|b| b.key.clone()).collect();
+                    k.sort();
+                    k.dedup();
+                    k
+                };
+                let k0 = keys(&o);
+                let k1 = keys(&sc.run());
+                let k2 = keys(&sc.run());
+                if k0 != k1 || k0 != k2 {
+                    st.nondeterministic.push(format!("scenario {i} {}: {k0:?} vs {k1:?} vs {k2:?}", sc.to_json()));
+                }
+                for b in &o.bad {
+                    if k1.contains(&b.key) && k2.contains(&b.key) {
+                        ctx.violation(b.key.clone(), b.what.clone(), sc.to_json());
+                    }
+                }
+                if ctx.violation_count() >= 40 {
+                    stop.store(true, Ordering::Relaxed);
+                }
+            } else if sample_at.contains(&i) {
+                st.samples.push((i, json!({"scenario": sc.to_json(), "per_connection_event_shapes": o.shapes})));
+            }
+        },
+    );
+    std::panic::set_hook(prev_hook);
+    let wall = t0.elapsed().as_secs_f64();
+    let mut c = Counters::default();
+    let mut stuck = Vec::new();
+    let mut nondet = Vec::new();
+    let mut picked: Vec<(u64, Value)> = Vec::new();
+    for s in states {
+        picked.extend(s.samples.iter().cloned());
+        c.merge(&s.counters);
+        stuck.extend(s.stuck);
+        nondet.extend(s.nondeterministic);
+    }
+    stuck.sort();
+    picked.sort_by_key(|(i, _)| *i);
+    for (_, v) in picked {
+        samples.offer(|| v);
+    }
+    if std::env::var_os("C15_DEBUG").is_some() {
+        for (i, s) in &stuck {
+            eprintln!("[C15] stuck: scenario {i}: {s}");
+        }
+        eprintln!("[C15] sweep wall {wall:.1}s, {} scenarios", scenarios.len());
+    }
+    let stopped = stop.load(Ordering::Relaxed);
+    let executed = executed.load(Ordering::Relaxed);
+    for (k, n) in &c.notes {
+        ctx.note(format!("{k} ({n}x)"));
+    }
+    if !ctx.has_violation() {
+        if !nondet.is_empty() {
+            ctx.machinery(format!("nondeterministic verdict on re-execution: {}", nondet[0]));
+        }
+        if !stuck.is_empty() {
+            ctx.machinery(format!("{} watchdog expiries / harness failures, first: scenario {} {}: {}", stuck.len(), stuck[0].0, scenarios[stuck[0].0 as usize].to_json(), stuck[0].1));
+        }
+        // non-vacuity: every executable cell ran, every mechanism was really reached
+        for cell in cells(true, true) {
+            let k = format!("{:?}x{:?}", cell.cause, cell.phase);
+            if c.cells.get(&k).copied().unwrap_or(0) == 0 {
+                ctx.machinery(format!("vacuous: cell {k} never executed"));
+            }
+        }
+        let need = [
+            ("off_parked_at_exit", c.off_parked_at_exit),
+            ("off_woke_cancelled", c.off_woke_cancelled),
+            ("inline_parked_at_trigger", c.inline_parked_at_trigger),
+            ("queue_nonempty_at_exit", c.queue_nonempty_at_exit),
+            ("hook_parked_at_trigger", c.hook_parked_at_trigger),
+            ("wire_order_checked", c.wire_order_checked),
+            ("registry_samples_connected", c.registry_samples_connected),
+            ("registry_samples_after", c.registry_samples_after),
+            ("handshake_failures", c.handshake_failures),
+            ("offpanic_survived", c.offpanic_survived),
+            ("drain_returned_with_parked_handler", c.drain_returned_with_parked_handler),
+            ("drain_aborted_stragglers", c.drain_aborted_stragglers),
+        ];
+        for (k, n) in need {
+            if n == 0 {
+                ctx.machinery(format!("vacuous: counter {k} is 0"));
+            }
+        }
+        for outcome in ["ok", "err", "panicked", "aborted"] {
+            if !c.served.keys().any(|k| k.ends_with(outcome)) {
+                ctx.machinery(format!("vacuous: no serving future ended as '{outcome}'"));
+            }
+        }
+    }
+    let mut shapes: Vec<(&String, &u64)> = c.log_shapes.iter().collect();
+    shapes.sort_by(|a, b| b.1.cmp(a.1).then(a.0.cmp(b.0)));
+    let coverage = json!({
+        "evaluations": c.connections,
+        "distinct_nontrivial": c.log_shapes.len(),
+        "scenarios_enumerated": scenarios.len(),
+        "scenarios_executed": executed,
+        "connections_decided": c.connections,
+        "events_logged": c.events,
+        "exhaustive": !stopped && executed == scenarios.len() as u64,
+        "stopped_early_after_violations": stopped,
+        "rule": "every exit cause x connection phase cell on each of the four in-memory entry points (1 connection), every ordered pair of cells (2 connections, both ending orders), triples (quick: every triple of causes with phases from a fixed covering rule; thorough: every triple of cells), N same-cell connections under one shared ShutdownToken, plus the built-in accept loops over loopback TCP (handshake failures x good connections, graceful drain with generous / zero / short deadline x phases x 1..3 connections); each scenario is executed on the real server and decided against the event-log model",
+        "alphabet": {
+            "causes": CAUSES.iter().map(name).collect::<Vec<_>>(),
+            "phases": PHASES.iter().map(name).collect::<Vec<_>>(),
+            "entry_points": ["serve_connection", "serve_connection_with_handshake", "serve_connection_with_cancel", "serve_connection_with_cancel_and_handshake", "serve_listener (TCP)", "serve_listener_with_graceful_drain (TCP)"],
+            "hooks": "C1, D1, with_peer_registry, C2 (queues 2 notifies), H (alias from the handshake), D2",
+        },
+        "bound": {"connections_per_scenario": tier.pick(json!([1, 2, 3, 4]), json!([1, 2, 3, 8, 32])), "tcp": tcp::bound(tier)},
+        "cells_executed": c.cells,
+        "cells_skipped_not_meaningful": skipped,
+        "served_through": c.via,
+        "serving_future_outcomes": c.served,
+        "nonvacuity": {
+            "off_reader_handler_still_parked_when_connection_ended": c.off_parked_at_exit,
+            "of_which_observed_is_cancelled_true": c.off_woke_cancelled,
+            "inline_handler_parked_when_cause_fired": c.inline_parked_at_trigger,
+            "inline_handler_saw_embedder_cancel": c.inline_saw_cancel,
+            "outbound_queue_nonempty_when_cause_fired": c.queue_nonempty_at_exit,
+            "connect_hook_parked_when_cause_fired": c.hook_parked_at_trigger,
+            "wire_order_decided_by_a_response_on_the_wire": c.wire_order_checked,
+            "both_connect_notifies_seen_on_wire": c.notifies_on_wire,
+            "registry_samples_while_connected": c.registry_samples_connected,
+            "registry_samples_after_end": c.registry_samples_after,
+            "disconnect_hook_pairs_checked": c.disconnect_pairs_checked,
+            "failed_handshakes": c.handshake_failures,
+            "offreader_panic_survived": c.offpanic_survived,
+            "drain_returned_while_a_handler_was_parked": c.drain_returned_with_parked_handler,
+            "drain_deadline_aborted_stragglers": c.drain_aborted_stragglers,
+            "connections_with_responses_undelivered_at_drain_abort": c.undelivered_at_abort,
+            "distinct_per_connection_event_shapes": c.log_shapes.len(),
+            "tcp_rows_timing_dependent": {"events_logged": c.tcp_events, "wire_order_decided": c.tcp_wire_order_checked, "both_connect_notifies_seen_on_wire": c.tcp_notifies_on_wire},
+        },
+        "most_common_event_shapes": shapes.iter().take(8).map(|(k, n)| json!({"shape": k, "connections": n})).collect::<Vec<_>>(),
+        "sweep_wall_s": (wall * 1000.0).round() / 1000.0,
+        "samples": samples.take(),
+    });
+    ctx.finish(
+        "fault_enumeration",
+        coverage,
+        &[
+            "connections of one scenario are accepted one after the other (the next one starts when the previous one's first connect hook has run); they then live and end concurrently",
+            "each in-memory connection is served on its own current-thread runtime; scheduling inside tokio's multi-thread scheduler is not enumerated",
+            "registry samples taken inside connect/disconnect hooks are model-specific and only produce notes; samples inside handlers and after the serving future decide",
+            "an inline handler can never be running when its own connection's disconnect hooks fire (it occupies the reader task), so the cancellation clause is decided on off-reader handlers; inline observations of an embedder cancel are reported as a counter/note",
+            "TCP rows: a zero drain deadline is one timer tick (<= 1 ms), so only connections that cannot finish at once (blocked writer, parked inline callback) are aborted by the accept loop; the short-deadline rows assume cancel processing (microseconds) finishes within 150 ms, and the outbound rows assume the kernel cannot buffer 2 x tcp_wmem_max + 8 MiB of responses for a peer with a 4 KiB receive buffer; no verdict depends on these, only which path is taken",
+            "an abort that lands while the serving future is idle in its reader select is reachable only for an embedder that aborts its own serve_connection task; that row is decided in memory (cause Abort)",
+        ],
+    )
+}
+
+pub fn replay(case: &Value) -> Result<(), String> {
+    let sc = Scenario::from_json(case)?;
+    let prev_hook = std::panic::take_hook();
+    std::panic::set_hook(Box::new(|_| {}));
+    let o = sc.run();
+    std::panic::set_hook(prev_hook);
+    for s in &o.shapes {
+        println!("  {s}");
+    }
+    println!("  counters: {}", json!({"drain_aborted_stragglers": o.counters.drain_aborted_stragglers, "off_parked_at_exit": o.counters.off_parked_at_exit, "queue_nonempty": o.counters.queue_nonempty_at_exit, "undelivered_at_abort": o.counters.undelivered_at_abort, "wire_order_checked": o.counters.wire_order_checked + o.counters.tcp_wire_order_checked}));
+    if !o.stuck.is_empty() {
+        println!("  harness trouble: {:?}", o.stuck);
+    }
+    if o.bad.is_empty() {
+        Ok(())
+    } else {
+        Err(o.bad.iter().map(|b| format!("{}: {}", b.key, b.what)).collect::<Vec<_>>().join("\n"))
+    }
 }
